@@ -99,7 +99,8 @@ pub fn distribute_partition(
         let mut current = primary_partition;
         for _ in 1..actual_replication {
             // Jump to the next partition, wrapping around if necessary
-            current = (current + jump) % num_partitions;
+            // `current + jump` can exceed u16::MAX for partition counts above ~43690
+            current = ((current as u32 + jump as u32) % num_partitions as u32) as u16;
 
             // Safety check to avoid potential infinite loop
             if result.contains(&current) || result.is_full() {
